@@ -315,6 +315,18 @@ class Folder:
                 if len(r) <= 4096:
                     return list(r)
             raise Unfoldable(norm(n))
+        if isinstance(n, ast.Call) and isinstance(n.func, ast.Name) and n.func.id in ('enumerate', 'zip', 'reversed', 'sorted') and not n.keywords and n.args and \
+                n.func.id not in self.env and n.func.id not in self.funcs:
+            vals = [self.fold(a, local_enum) for a in n.args]
+            if n.func.id == 'enumerate' and isinstance(vals[0], (list, tuple)) and len(vals) <= 2 and (len(vals) == 1 or type(vals[1]) is int):
+                return [(i_, x) for i_, x in enumerate(vals[0], vals[1] if len(vals) == 2 else 0)]
+            if n.func.id == 'zip' and all(isinstance(v, (list, tuple)) for v in vals):
+                return [tuple(t_) for t_ in zip(*vals)]
+            if n.func.id == 'reversed' and len(vals) == 1 and isinstance(vals[0], (list, tuple)):
+                return list(reversed(vals[0]))
+            if n.func.id == 'sorted' and len(vals) == 1 and isinstance(vals[0], (list, tuple)) and all(type(x) in (int, str) for x in vals[0]):
+                return sorted(vals[0])
+            raise Unfoldable(norm(n))
         if isinstance(n, ast.Call) and isinstance(n.func, ast.Name) and n.func.id in ('ord', 'chr', 'str', 'int', 'len') and len(n.args) == 1 and not n.keywords \
                 and n.func.id not in self.env and n.func.id not in self.funcs:
             v = self.fold(n.args[0], local_enum)
